@@ -50,6 +50,13 @@ def run(ctx):
             es = list(h.entries)
             es[i] = dataclasses.replace(es[i], **{f: (1 << w) + r.choice([0, 1, 77])})
             h = dataclasses.replace(h, entries=tuple(es))
+        if r.random() < 0.05 and h.entries:
+            # a Subscribe / SubscribeAck whose counter does not fit its 4 bits (the 32-bit value field has 12 reserved bits there)
+            i = r.randrange(len(h.entries))
+            if h.entries[i].sd_type in (H.SOMEIPSDEntryType.Subscribe, H.SOMEIPSDEntryType.SubscribeAck):
+                es = list(h.entries)
+                es[i] = dataclasses.replace(es[i], minver_or_counter=r.choice([16 << 16, (16 << 16) | 5, 0x100000, 0x80000000, 0xFFFFFFFF, (r.getrandbits(12) or 1) << 20 | r.getrandbits(20)]))
+                h = dataclasses.replace(h, entries=tuple(es))
         sh = conv.s_sd(h)
         a_res = conv.s_res(lambda: h.assign_option_indexes(), conv.s_sd)
         cases.append((205, sh)); impl.append(a_res); descr.append(("assign", k))
